@@ -25,7 +25,9 @@ def run(ctx):
         "cubic} x hashers (blake3_256/192, sha3_256, rp64_256, rpjive64_256, rp62_248, toy) x options (20..40 queries, blowup 8/16, "
         "grinding 0/3, folding 2..16): ONE cell of a valid trace is changed at each class of (column, step): first step, last enforced "
         "step n-k-1, n-k, n-k+1, last step, interior, exempt-only rows, every asserted step kind (single; first/middle/last named step "
-        "of periodic and sequence assertions; assertions sharing a divisor group) with honest or corrupted published values, degenerate specs, the same classes in the auxiliary segment, and "
+        "of periodic and sequence assertions; assertions sharing a divisor group) with honest or corrupted published values, degenerate specs, the same classes in the auxiliary segment, the same again for members with ONE main column and 2..3 auxiliary columns (more "
+        "auxiliary than main transition constraints / assertions: aux-heavy classes, incl. a shift of a whole running-sum column, which only "
+        "its step-0 assertion notices, and the asserted last row of aux column 0, which no enforced transition reads), and "
         "random cells of random specs; in every second round of the honest-value assertion classes the cell is left alone and the prover "
         "publishes a FALSE value for that named step instead, so that only the assertion (no transition) is violated; proved with the honest prover code in the RELEASE profile and verified: is_valid = false => must "
         "be rejected (an acceptance is re-run with up to 3 other hashers = coin seeds and reported); is_valid = true => must be accepted. "
@@ -82,7 +84,7 @@ def run(ctx):
                 if isinstance(sm.get(k), str) and len(sm[k]) > 900:
                     sm[k] = sm[k][:900] + " ...(truncated)"
     if hb:
-        budget = (30 * 24 if quick else 30 * 400) * (3 if ctx.broken() else 1)
+        budget = (37 * 24 if quick else 37 * 400) * (3 if ctx.broken() else 1)
         maxlog = "6" if quick else "9"   # largest log2(trace length); thorough also takes traces of 128..512 rows
         rc, out, _ = vcheck.sh([hb, "falsify", str(ctx.seed), str(budget), maxlog], timeout=2400)
         nfail = 0
@@ -120,7 +122,7 @@ def run(ctx):
         # every class of the quantifier must have been exercised
         cell_classes = {k: v for k, v in classes.items() if not k.startswith("pub:")}
         thin = {k: v["cases"] for k, v in cell_classes.items() if v["cases"] < MIN_PER_CLASS}
-        ctx.ob("falsifier-coverage:every-cell-class>=20", seen and len(cell_classes) >= 30 and not thin, f"classes={len(cell_classes)} thin={thin}")
+        ctx.ob("falsifier-coverage:every-cell-class>=20", seen and len(cell_classes) >= 37 and not thin, f"classes={len(cell_classes)} thin={thin}")
         must_reject = sum(v["rejected"] for v in cell_classes.values())
         must_accept = sum(v["valid_accepted"] for v in cell_classes.values())
         ctx.ob("falsifier-coverage:both-directions", must_reject >= 200 and must_accept >= 40,
